@@ -195,7 +195,13 @@ func (ctrler *GovCtrler) ValidateTrx(ctx *ctrlertypes.TrxContext) xerrors.XError
 			//check options
 			checkGovParams := &ctrlertypes.GovParams{}
 			for _, option := range txpayload.Options {
-				if err := json.Unmarshal(option, checkGovParams); err != nil {
+				// The option MUST be checked in the same form as it is applied in applyProposals();
+				// an option which can not be applied stops every node at its applying height.
+				strOpt := string(option)
+				if strings.HasSuffix(strOpt, `""}`) {
+					strOpt = strings.ReplaceAll(strOpt, `""}`, `"}`)
+				}
+				if err := json.Unmarshal([]byte(strOpt), checkGovParams); err != nil {
 					return xerrors.ErrInvalidTrxPayloadParams.Wrap(err)
 				}
 			}
